@@ -1079,8 +1079,19 @@ class Parser:
     ) -> ast.Module | None:
         """Parse a file or string."""
         with open(path, encoding="utf-8-sig") as f:  # a UTF-8 byte order mark is not part of the source (as in CPython)
-            tok_stream = generate_tokens(f.readline)
+            lines: dict[int, str] = {}
+
+            def readline() -> str:
+                # keep what was read: error texts and '=' debug fields quote source lines, and the path may be
+                # readable only once (a pipe, /dev/stdin)
+                line = f.readline()
+                if line:
+                    lines[len(lines) + 1] = line
+                return line
+
+            tok_stream = generate_tokens(readline)
             tokenizer = Tokenizer(tok_stream, verbose=verbose, path=str(path))
+            tokenizer._lines = lines
             parser = cls(
                 tokenizer,
                 verbose=verbose,
